@@ -107,7 +107,9 @@ pub fn run(ctx: &Ctx, rep: &mut Report) {
             }
         };
         let keys = world.keys();
-        let n_threads = if miri { 2 + (idx % 2) as usize } else { [2usize, 4, 8, 16][(idx % 4) as usize] };
+        // "any number of threads": also more threads than cores and more than any small fixed table would hold
+        let n_threads = if miri { 2 + (idx % 2) as usize } else { [2usize, 4, 8, 16, 40, 72][(idx % 6) as usize] };
+        let per_thread = if n_threads > 16 { per_thread / 3 } else { per_thread };
         // shared pool of texts (on purpose: the same lazily initialised tables are first touched by several threads at once)
         let n_texts = if miri { 6 } else { 60 };
         let mut texts: Vec<String> = (0..n_texts).map(|i| if i % 5 == 0 { format!("{}ア1,000カカa1", textgen::text_from_keys(&mut rng, &keys, 3)) } else { textgen::text_from_keys(&mut rng, &keys, 8) }).collect();
